@@ -310,7 +310,6 @@ def normal_cases(layout, func, dts, a):
         for xp, lp, sc in itertools.product(itertools.product(xs, repeat=2), itertools.product(locs, repeat=2), scales):
             yield case(list(xp), list(lp), sc)
     elif layout == "pop (k,s) x (k,s) x ()":
-        x4 = (xs * 4)[:4] if len(xs) >= 4 else (xs * 4)[:4]
         for r0 in range(len(xs)):
             xm = [xs[(r0 + q) % len(xs)] for q in range(4)]
             for r in range(len(locs)):
